@@ -175,8 +175,21 @@ func (r *repository) addRulesTo(tree *radixtree.Tree[rule.Route], rules []rule.R
 }
 
 func (r *repository) removeRulesFrom(tree *radixtree.Tree[rule.Route], tbdRules []rule.Rule) error {
+	type routeKey struct{ ruleID, srcID, path string }
+
+	// Delete removes all routes of a rule registered for a path expression at once. So, if a rule
+	// defines multiple routes for the same path expression, the latter must be deleted only once.
+	deleted := make(map[routeKey]struct{})
+
 	for _, rul := range tbdRules {
 		for _, route := range rul.Routes() {
+			key := routeKey{ruleID: rul.ID(), srcID: rul.SrcID(), path: route.Path()}
+			if _, ok := deleted[key]; ok {
+				continue
+			}
+
+			deleted[key] = struct{}{}
+
 			if err := tree.Delete(
 				route.Path(),
 				radixtree.ValueMatcherFunc[rule.Route](func(route rule.Route) bool {
